@@ -1043,6 +1043,111 @@ def td_replay_job(job):
     return dict(results=res)
 
 
+def c10_e2e_cfg(seed, jitter=False, skip=False):
+    """Generated graph (non-blocking connections only) with one connection made trainable; without `jitter` the sender's computation delay is
+    constant (sends exactly one period apart: the compile-time window extension suffices), without `skip` no tie rule is involved."""
+    import random
+
+    from . import compiledchecks as cc
+
+    rng = random.Random(seed)
+    cfg = cc._gen_cfgs(seed, 1)[0]
+    cands = [c for c in cfg["conns"] if (skip or not c["skip"])]
+    if not cands:
+        return None
+    c = rng.choice(cands)
+    src = [n for n in cfg["nodes"] if n["name"] == c["out"]][0]
+    if not jitter:
+        src["cdist"] = [rng.choice(src["cdist"])]
+    mn, mx = rng.choice([(0, 2), (1, 3), (0, 4), (2, 6), (1, 5)])   # max - min a power of two: alpha is exact in float32
+    c["train"] = dict(min=mn, max=mx)
+    c["skip"] = skip
+    c["blocking"] = False
+    c["jitter"] = "L"
+    c["delay"] = mn
+    c["cdist"] = [mn]
+    return cfg
+
+
+def _c10_e2e(rep, quick, seed):
+    """End to end (C10 as stated): compiled system with the trainable delay set to d  vs  compiled system with the static delay d."""
+    import re
+
+    from . import engine
+
+    modes = [("mcs", True), ("gen", False), ("topo", True), ("mcs", False), ("gen", True), ("topo", False)]
+    jobs = []
+    n = 8 if quick else 60
+    for s in range(n):
+        cfg = c10_e2e_cfg(seed * 1000 + 5000 + s, jitter=(s % 4 == 3), skip=(s % 5 == 4))
+        if cfg is None:
+            continue
+        tr = [c for c in cfg["conns"] if "train" in c][0]["train"]
+        vars_ = [dict(d=d, how=["dist", "init_delays", "params"][(d + s) % 3], jit=((d + s) % 4 != 0)) for d in range(0, tr["max"] + 2)]
+        mode, prune = modes[s % 6]
+        jobs.append(dict(kind="pyfunc", module="harness.compiled_jobs", func="c10_e2e_job", id=f"c10e{s}", cfg=cfg, seed=seed + s, variants=vars_, mode=mode,
+                         prune=prune, ts_max=48 if quick else 64, timeout=2400))
+    results = common.run_jobs(jobs, timeout=2700)
+    runs, metas, statics = [], [], []
+    for r in results:
+        if not r.get("ok"):
+            if r.get("timeout"):
+                rep.note(f"job {r['job']['id']} exceeded its budget")
+                continue
+            raise common.MachineryError(r.get("error", "")[-3000:])
+        for nt in r.get("notes", []):
+            rep.note(f"{r['job']['id']}: {nt}")
+        runs += r["runs"]
+        metas += r["meta"]
+        statics += r["static"]
+    vs, st = engine.validate_parallel(runs, module="RexRun")
+    rep.add_tlc(st)
+    vss, st2 = engine.validate_parallel(statics, module="RexSchedule")
+    rep.add_tlc(st2)
+    for t, v in zip(statics, vss):
+        if v["verdict"] != "accept":
+            rep.note(f"schedule trace {t['id']} rejected by RexSchedule clause {v['clause']} (belongs to C07): {v['detail'][:300]}")
+    stats = dict(pairs=0, pairs_equal=0, known=0, drift=0, saturated_pairs=0, by_how={})
+    for t, v, m in zip(runs, vs, metas):
+        if m["system"] == "B":
+            if v["verdict"] != "accept":
+                rep.note(f"reference run {t['id']} (static delay) rejected by RexRun clause {v['clause']} (not C10's business): {v['detail'][:300]}")
+            continue
+        stats["pairs"] += 1
+        rep.cov["traces_validated_against_impl"] += 1
+        rep.cov["evaluations"] += 1
+        if v["verdict"] == "accept":
+            stats["pairs_equal"] += 1
+            stats["by_how"][m["variant"]["how"]] = stats["by_how"].get(m["variant"]["how"], 0) + 1
+            if m["variant"]["d"] != m["deff"]:
+                stats["saturated_pairs"] += 1
+            rep.nontrivial(t["id"])
+            continue
+        if not v["clause"].startswith("MatchesAsync_"):
+            # the run agrees with the reference as far as compared, but not with the implementation-shaped model of apply_delay / the runtime
+            stats["drift"] += 1
+            rep.note(f"MODEL-DRIFT property=C10: {t['id']} rejected by RexRun clause {v['clause']} before any disagreement with the static system: {v['detail'][:300]}")
+            continue
+        at = re.search(r'at \|-> <<(\d+), "(\w+)", (\d+)>>', v["detail"])
+        node, seq = at.group(2), int(at.group(3))
+        cls = "other"
+        if node == m["key"].split(">")[1] and seq < len(m["starts"]):
+            start, d, mn = m["starts"][seq], m["deff"], m["train"]["min"]
+            ext = -(-(m["train"]["max"] - mn) // m["period_out"])
+            tie = any(x + d == start for x in m["sent"])
+            between = sum(1 for x in m["sent"] if x + mn <= start and x + d > start)
+            if m["skip"] and tie:
+                cls = "skip_tie"
+            elif between > ext:
+                cls = "window_extension_too_small"
+        if cls != "other":
+            stats["known"] += 1
+        rep.violation(dict(kind="zoh_differs_from_static", cls=cls), dict(kind="c10_e2e", trace_id=t["id"], meta=m, verdict=v),
+                      text=f"end to end: {t['id']} (delay {m['variant']} -> {m['deff']} ticks, {m['mode']}/{'prune' if m['prune'] else 'noprune'}) differs from the system with the "
+                           f"static delay at step {seq} of {node} (class {cls}): {v['detail'][:400]}")
+    return stats
+
+
 def c10(tier, seed):
     rep = common.Report("C10", tier, seed)
     quick = tier == "quick"
@@ -1084,6 +1189,7 @@ def c10(tier, seed):
                           text=f"apply_delay gives window {got}, a static delay of {d['deff']} gives {d['static']} (class {cls}): case {c}, sends at {d['sent']}")
     rep.cov["traces_validated_against_impl"] = n
     rep.cov["evaluations"] = n
+    e2e = _c10_e2e(rep, quick, seed)
     if drift:
         rep.note(f"MODEL-DRIFT property=C10: {drift} cases where apply_delay differs from the ZohWindow model (verdicts are taken against StaticWindow only)")
     rep.sample(cases[0])
@@ -1093,6 +1199,8 @@ def c10(tier, seed):
                        "compiled schedule would hand over is built as a real InputState and given to the real TrainableDist.apply_delay (zoh); the result must be "
                        "StaticWindow(d): exactly `window` entries, the last messages that arrived by the step's start under a fixed delay d. non-trivial = case with a "
                        "tie, saturation or a partially filled window")
-    rep.assumptions += ["unit level: apply_delay on extended windows built as apply_window builds them; end-to-end pairs of compiled systems are not run",
+    rep.cov["end_to_end"] = e2e
+    rep.assumptions += ["unit level: apply_delay on extended windows built as apply_window builds them; end to end: pairs of compiled systems on graphs generated by rex "
+                        "(generate_graphs), one episode, rollout over the whole horizon, compared on the steps both systems execute",
                         "ranges with max-min a power of two so that alpha and min+alpha*(max-min) are exact in float32 (a tie is decided by exact comparison)"]
     return rep.finish()
